@@ -56,6 +56,14 @@ def model(fem, cls, case, transform=None):
         mesh = mesh.triangulate()
     if cls.startswith(("hexahedron20", "quad8")):
         mesh = mesh.add_midpoints_edges()
+    # points without cells (e.g. left over from deleted cells): their unknowns belong to the prescribed set
+    norph = (case["seed"] // 2) % 5 if cls != "mixed-hexahedron" else 0
+    if norph:
+        P = np.array(mesh.points)
+        lo, hi = P.min(0), P.max(0)
+        extra = np.tile((lo + hi) / 2, (norph, 1))
+        extra[:, -1] = hi[-1] + 0.3 * (1 + np.arange(norph))
+        mesh.update(points=np.vstack([P, extra]))
     Xref = np.array(mesh.points)
     if transform is not None:
         for ax in range(3 if dim == 3 else 1):
@@ -115,8 +123,19 @@ def assemble_pencil(fem, fc, um, rho, bounds):
     M = body.assemble.mass().tocsr().copy()
     K.resize(n, n)
     M.resize(n, n)
-    dof0, dof1 = fem.dof.partition(fc, bounds)
+    dof0, dof1 = partition_model(fc, bounds)
     return K, M, dof0, dof1
+
+
+def partition_model(fc, bounds):
+    """independent partition: prescribed = union of the boundaries' unknowns and all unknowns of points without cells"""
+    n = int(sum(fc.fieldsizes))
+    f0 = fc.fields[0]
+    pres = [np.asarray(b.dof).ravel() for b in bounds.values()]
+    orph = np.setdiff1d(np.arange(f0.region.mesh.npoints), np.unique(f0.region.mesh.cells))
+    pres.append((orph[:, None] * f0.dim + np.arange(f0.dim)[None, :]).ravel())
+    dof0 = np.unique(np.concatenate(pres)).astype(int)
+    return dof0, np.setdiff1d(np.arange(n), dof0)
 
 
 def check(cls, case, rec):
@@ -133,15 +152,25 @@ def check(cls, case, rec):
             rec.reject("too few free unknowns")
             return
     items = [body]
-    if case["seed"] % 3 == 0:
-        # a second item on the same field whose matrix is scaled by its multiplier (e.g. a softer coating)
-        mult = 0.25 + (case["seed"] % 7) / 10
-        body2 = fem.SolidBody(um, fc, density=0.5 * rho, multiplier=mult)
-        items.append(body2)
-        K2, M2, _, _ = assemble_pencil(fem, fc, um, 0.5 * rho, bounds)
-        K = K + mult * K2
+    if case["seed"] % 3 == 0 and cls not in ("mixed-hexahedron", "neo-hooke-at-rest"):
+        # a second item of another material on the same field; the stiffness of the first or of the second item (or of
+        # both) is scaled by its multiplier (e.g. a softer coating): K = sum m_i K_i, M = sum M_i
+        m1, m2 = [(None, 0.35), (1.75, None), (0.6, 2.5)][(case["seed"] // 3) % 3]
+        um2 = fem.LinearElastic(E=2.5 * case["E"], nu=min(0.45, case["nu"] + 0.1))
+        body = fem.SolidBody(um, fc, density=rho, **({} if m1 is None else {"multiplier": m1}))
+        body2 = fem.SolidBody(um2, fc, density=0.5 * rho, **({} if m2 is None else {"multiplier": m2}))
+        items = [body, body2]
+        K2, M2, _, _ = assemble_pencil(fem, fc, um2, 0.5 * rho, bounds)
+        K = (1.0 if m1 is None else m1) * K + (1.0 if m2 is None else m2) * K2
         M = M + M2
         rec.label("two-items-with-multiplier")
+    elif case["seed"] % 3 == 1:
+        # a single item with a multiplier
+        m1 = 0.4 + (case["seed"] % 5) / 2
+        body = fem.SolidBody(um, fc, density=rho, multiplier=m1)
+        items = [body]
+        K = m1 * K
+        rec.label("one-item-with-multiplier")
     # the pencil handed to the eigensolver is recorded (felupe's own part of the analysis), then solved by scipy as usual
     from scipy.sparse.linalg import eigsh
 
@@ -151,8 +180,12 @@ def check(cls, case, rec):
         seen.update(A=A.copy(), M=M.copy(), sigma=sigma, kw=dict(kw))
         return eigsh(A=A, M=M, sigma=sigma, **kw)
 
+    kw = {}
+    if cls == "mixed-hexahedron":
+        # scipy draws ARPACK's start vector from the global RNG; fixed here so that a case is a pure function of its data
+        kw["v0"] = np.random.default_rng(case["seed"]).uniform(-1, 1, len(dof1))
     if case["seed"] % 2:
-        job = fem.FreeVibration(items, bounds).evaluate(k=k, solver=recording_solver)
+        job = fem.FreeVibration(items, bounds).evaluate(k=k, solver=recording_solver, **kw)
         K11s, M11s = K[dof1][:, dof1], M[dof1][:, dof1]
         ok = rec.require("solver-receives-free-block-shapes", seen["A"].shape == K11s.shape and seen["M"].shape == M11s.shape, [seen["A"].shape, K11s.shape])
         if ok:
@@ -160,7 +193,7 @@ def check(cls, case, rec):
             rec.close("solver-receives-M11", float(abs(seen["M"] - M11s).max()) / float(abs(M11s).max()), 1e-13)
         rec.require("solver-receives-k-and-shift", seen["kw"].get("k") == k and seen["sigma"] == 0, [seen["kw"], seen["sigma"]])
     else:
-        job = fem.FreeVibration(items, bounds).evaluate(k=k)
+        job = fem.FreeVibration(items, bounds).evaluate(k=k, **kw)
     lam = np.asarray(job.eigenvalues)
     V = np.asarray(job.eigenvectors)
     if not rec.require("shapes", lam.shape == (k,) and V.shape == (len(dof1), k), [lam.shape, V.shape]):
@@ -175,28 +208,22 @@ def check(cls, case, rec):
         v = V[:, i]
         Kv = K11 @ v
         worst = max(worst, float(np.linalg.norm(Kv - lam[i] * (M11 @ v)) / max(np.linalg.norm(Kv), 1e-300)))
-    nmass = int((M11.diagonal() > 0).sum())
-    ncv = min(len(dof1), max(2 * k + 1, 20))
-    if cls == "mixed-hexahedron" and nmass < 2 * ncv:
-        # scipy's ARPACK (shift-invert, singular M) loses the eigenvectors - not the eigenvalues - when the Lanczos basis
-        # (ncv vectors) nearly exhausts range(M): residuals vary from run to run with the random start vector. The
-        # eigenvalues are decided against a dense solution of the statically condensed pencil instead.
-        import scipy.linalg as sl
-
+    if cls == "mixed-hexahedron":
+        # extra fields without mass: M is singular. ARPACK's convergence test lives in the M-seminorm, so the massless (p, J)
+        # components of a returned vector are not controlled by it. Decided in two parts: (a) the pair is an eigenpair of
+        # the pencil with the massless unknowns condensed (they follow from K_du u + K_dd d = 0), (b) the returned massless
+        # components are those values, i.e. K v = lambda M v on all free unknowns.
         Kd, Md = K11.toarray(), M11.toarray()
         d = np.where(Md.diagonal() == 0)[0]
         u = np.where(Md.diagonal() > 0)[0]
-        Kred = Kd[np.ix_(u, u)] - Kd[np.ix_(u, d)] @ np.linalg.solve(Kd[np.ix_(d, d)], Kd[np.ix_(d, u)])
-        w = sl.eigh(Kred, Md[np.ix_(u, u)], eigvals_only=True)
-        # every returned value is an eigenvalue of the pencil (with its multiplicity)
-        wl = list(w)
-        miss = 0.0
-        for x in np.sort(lam):
-            j = int(np.argmin([abs(x - y) for y in wl]))
-            miss = max(miss, abs(x - wl[j]) / max(abs(x), 1e-300))
-            wl.pop(j)
-        rec.close("eigenvalues in the dense spectrum of the condensed pencil", miss, 1e-7, {"k": k})
-        rec.label("small-singular-pencil")
+        worst_c = 0.0
+        for i in range(k):
+            vu = V[u, i]
+            dd = -np.linalg.solve(Kd[np.ix_(d, d)], Kd[np.ix_(d, u)] @ vu)
+            ru = Kd[np.ix_(u, u)] @ vu + Kd[np.ix_(u, d)] @ dd - lam[i] * (Md[np.ix_(u, u)] @ vu)
+            worst_c = max(worst_c, float(np.linalg.norm(ru) / max(np.linalg.norm(Kd[np.ix_(u, u)] @ vu), 1e-300)))
+        rec.close("K v = lambda M v, massless unknowns condensed", worst_c, 1e-7, {"k": k})
+        rec.close("K v = lambda M v on all free unknowns (massless components of the vectors)", worst, 1e-7, {"k": k, "mass-carrying unknowns": len(u)})
     else:
         rec.close("K v = lambda M v", worst, 1e-7, {"k": k, "class": cls})
     rec.nontrivial = bool(k >= 2 and lam.min() > 0 and len(np.unique(np.round(lam / lam.max(), 6))) >= 2)
@@ -246,18 +273,20 @@ def rigid_check(cls, case, rec):
     bounds = boundaries(fem, fc, Xref, case, dim)
     k = max(2, min(case["k"], 6))
     rho = case["rho"]
-    if fc.fields[0].values.size - sum(len(b.dof) for b in bounds.values()) <= k + 2:
+    dof0m, dof1m = partition_model(fc, bounds)
+    if len(dof1m) <= k + 2:
         rec.reject("too few free unknowns")
         return
-    nfree_u = fc.fields[0].values.size - len(np.unique(np.concatenate([b.dof for b in bounds.values()])))
+    nfree_u = int((dof1m < fc.fields[0].values.size).sum())
     if cls == "mixed-hexahedron" and nfree_u < 2 * max(2 * k + 1, 20):
         rec.reject("small singular pencil: ARPACK may drop copies of multiple eigenvalues (see the eigenpairs family)")
         return
-    j1 = fem.FreeVibration([fem.SolidBody(um, fc, density=rho)], bounds).evaluate(k=k)
+    kw = {"v0": np.random.default_rng(case["seed"]).uniform(-1, 1, len(dof1m))} if cls == "mixed-hexahedron" else {}
+    j1 = fem.FreeVibration([fem.SolidBody(um, fc, density=rho)], bounds).evaluate(k=k, **kw)
     tr = {"angles": case["angles"], "shift": case["shift"]}
     mesh2, _, fc2, um2, _ = model(fem, cls, case, transform=tr)
     b2 = boundaries(fem, fc2, Xref, case, dim)  # the same points (masks are evaluated on the reference coordinates)
-    j2 = fem.FreeVibration([fem.SolidBody(um2, fc2, density=rho)], b2).evaluate(k=k)
+    j2 = fem.FreeVibration([fem.SolidBody(um2, fc2, density=rho)], b2).evaluate(k=k, **kw)
     a, b = np.sort(np.asarray(j1.eigenvalues)), np.sort(np.asarray(j2.eigenvalues))
     rec.nontrivial = any(abs(((x + 45) % 90) - 45) > 5 for x in case["angles"][: (3 if dim == 3 else 1)])
     rec.close("spectrum-invariant-under-rigid-motion", float(np.abs(a - b).max()) / float(np.abs(a).max()), 1e-7, {"angles": case["angles"], "shift": case["shift"]})
